@@ -9,6 +9,8 @@ post seed=… posters=… m=… q=… keys=…  ⇥ posters=<b> close=<b> panic=
 suspend …                              ⇥ <ok|suspend-hang|…> posters=<b> close=<b> panic="…" leak=<n>
 fullclose … | sigclose … | dblclose …  ⇥ <outcome> … leak=<n>
 race <group>                           ⇥ races=<n> …
+sigblocked seed=… keys=k               ⇥ queued=… blocked=… pending=… closed-before-receive=… after-receive=quit-ok leak=0
+contract seed=… ops=CRC|SRRC …         ⇥ as cycles (Resume's precondition violated: witness, verdict `-`)
 lostkey seed=… variant=v               ⇥ ctl=<keys> got=<keys> pos=r,c seq=<hex>   (keys shaped like a cursor-position report around a query given up / answered / absent)
 cycles seed=… ops=SRSRC gate=g keys=k q=…  ⇥ S:ret,done R S:ret,done … (one observation per call of the main goroutine)
 ```
@@ -188,6 +190,39 @@ def step (line : String) : String :=
       else if leak != "0" then s!"FAIL {leak} library goroutine(s) left after Suspend concurrent with Close"
       else "ok"
     s!"ok leak=0\t{out} leak={leak}\t{verdict}"
+  | "sigblocked" :: rest =>
+    -- a kill signal while the input goroutine is blocked posting to a full queue nobody receives from:
+    -- on the LTS the state is at rest with the signal pending (the kill arm belongs to the `select`);
+    -- one `consume` later every maximal run ends final (Props.C10Resume.kill_signal_waits_for_the_consumer)
+    if impl == "incomplete" then "-\t-\t-" else
+    let keys := ((kv rest "keys").bind String.toNat?).getD 1
+    let s0 : SSys := { qcap := 1, queueLen := 1, consumer := false, inbuf := List.replicate keys (some 1),
+                       da1First := da1FirstOf Gen.Conc.skeleton_Suspend, resumeClears := resumeClearsOf Gen.Conc.skeleton_Resume,
+                       waitDrains := waitDrainsOf Gen.Conc.shape_Parser_WaitClose, postQuitArm := postQuitArmOf Gen.Conc.shape_PostEventBlocking }
+    let s1 := runToRest .libFirst 200 s0
+    let s2 := match snext s1 .signal with | some x => runToRest .libFirst 200 x | none => s1
+    let blocked := match s2.ipc with | .posting _ => 1 | _ => 0
+    let s3 := runToRest .libFirst 600 { s2 with consumer := true }
+    let mc := s!"blocked={blocked} pending={if s2.killSig then 1 else 0} closed-before-receive={if s2.quitCloses > 0 then 1 else 0} after-receive={if s3.final && s3.quitCloses == 1 then "quit-ok" else "quit-hang"} leak=0"
+    let g := fun k => (kv fi k).getD "?"
+    let ic := s!"blocked={g "blocked"} pending={g "pending"} closed-before-receive={g "closed-before-receive"} after-receive={g "after-receive"} leak={g "leak"}"
+    let verdict :=
+      if g "after-receive" != "quit-ok" then s!"FAIL a kill signal that arrived while the input goroutine was blocked in a post is never served although the application receives again ({impl})"
+      else if g "leak" != "0" then s!"FAIL {g "leak"} library goroutine(s) left after the kill-signal Close"
+      else "ok"
+    s!"{mc}\t{ic}\t{verdict}"
+  | "contract" :: rest =>
+    -- witness of what happens when the precondition of Resume is violated (Props.C10Resume): not judged.
+    -- Resume after Close is a transition of the LTS (the prediction is compared); Resume while the parser
+    -- of the running session has not stopped is not (`unmodelled`: resume_needs_stopped_parser)
+    let ops := ((kv rest "ops").getD "").toList
+    let keys := ((kv rest "keys").bind String.toNat?).getD 0
+    let s0 : SSys := { inbuf := List.replicate keys (some 1),
+                       da1First := da1FirstOf Gen.Conc.skeleton_Suspend, resumeClears := resumeClearsOf Gen.Conc.skeleton_Resume,
+                       waitDrains := waitDrainsOf Gen.Conc.shape_Parser_WaitClose, postQuitArm := postQuitArmOf Gen.Conc.shape_PostEventBlocking }
+    let pred := session .callerFirst (400 + 40 * keys) s0 ops
+    if pred.contains "unmodelled" then s!"outside-contract\toutside-contract\t-"
+    else s!"{" ".intercalate pred}\t{impl}\t-"
   | "lostkey" :: _ =>
     -- "no lost events" for terminal input around a cursor-position query that was given up / answered /
     -- never issued: the input goroutine's `deliver` label of `USys` hands a reply to a requester only
